@@ -9,6 +9,7 @@
 // VF-BUDGET_QUICK: 150
 // VF-BUDGET_THOROUGH: 1800
 #include "vf.hpp"
+#include <cstring>
 #include <Bpp/Numeric/Matrix/LUDecomposition.h>
 #include <Bpp/Numeric/Matrix/MatrixTools.h>
 #include <Bpp/Numeric/NumConstants.h>
@@ -238,6 +239,22 @@ static void judge(vf::Case& c, const std::string& part, const Mat& M, int cA, in
       resid("solve", *Bcopy, *X, k);
     }
     for (int i = 0; i < n; ++i) for (int j = 0; j < k; ++j) if ((*Bcopy)((size_t)i, (size_t)j) != (*B)((size_t)i, (size_t)j)) { c.fail(part + "|solve-modified-rhs", in()); i = n; break; }
+    // the same system solved into re-used result objects that already have a shape: the right height with more columns, the right shape
+    // with other values, one row more; the result must have the shape and the values of the fresh solve
+    if (!threw) {
+      static const int PRE[3][2] = {{0, 2}, {0, 0}, {1, 0}};
+      for (int q = 0; q < 3; ++q) {
+        auto X2 = mk(cX, n + PRE[q][0], k + PRE[q][1]);
+        for (size_t i = 0; i < X2->getNumberOfRows(); ++i) for (size_t j = 0; j < X2->getNumberOfColumns(); ++j) (*X2)(i, j) = 7 + (double)i - (double)j;
+        if ((int)X2->getNumberOfRows() != n + PRE[q][0] || (int)X2->getNumberOfColumns() != k + PRE[q][1]) continue;   // (shape not representable in this class)
+        c.site("LUDecomposition::solve(re-used result)");
+        try { lu.solve(*B, *X2); } catch (Exception& e) { c.fail(part + "|solve-reused-result-raised", in() + " what=" + e.what()); continue; }
+        bool same = X2->getNumberOfRows() == X->getNumberOfRows() && X2->getNumberOfColumns() == X->getNumberOfColumns();
+        if (same) for (size_t i = 0; i < X->getNumberOfRows() && same; ++i) for (size_t j = 0; j < X->getNumberOfColumns(); ++j) if (std::memcmp(&(*X)(i, j), &(*X2)(i, j), sizeof(double)) != 0) { same = false; break; }
+        if (!same) c.fail(part + "|solve-result-depends-on-previous-content-of-result-object", in() + " " + CLS[cX] + " X pre-sized " + str(n + PRE[q][0]) + "x" + str(k + PRE[q][1]) + " came back " + str(X2->getNumberOfRows()) + "x" + str(X2->getNumberOfColumns()) + " (fresh result " + str(n) + "x" + str(k) + ")");
+        else c.tag("solve:reused-result-agrees");
+      }
+    }
   }
   // --- inverse ---
   {
